@@ -3,7 +3,7 @@ from __future__ import annotations
 
 import json
 
-from spverif.core.util import attempt, exc_sig
+from spverif.core.util import attempt, exc_sig, hist_len
 from spverif.ref import cfdp as R
 from . import _cfdp as C
 
@@ -98,7 +98,7 @@ def k_holder_reuse(ctx, seed):
     ctx.case("holder_reuse", seed, sample=case)
     holder = X.PduHolder(None)
     prev = None
-    for step in range(r.randrange(2, 7)):
+    for step in range(hist_len(r, 2, 7)):
         kind = r.choice(C.KINDS8)
         cfg = C.rand_cfg(r, segctrl=(kind == "file_data"))
         p = C.rand_params(r, kind, cfg, rich=False)
